@@ -8,6 +8,7 @@ mod red_cases;
 mod serde_cases;
 mod interners;
 mod syn;
+mod text_cases;
 mod token_cases;
 
 use std::alloc::{GlobalAlloc, Layout, System};
@@ -49,6 +50,7 @@ fn run_line(line: &str) -> String {
         "Y" => green_cases::run_y(&args),
         "I" => intern_cases::run_case(&args),
         "Q" => token_cases::run_q(&args),
+        "X" => text_cases::run_x(&args),
         "Z" => serde_cases::run_z(&args),
         "W" => serde_cases::run_w(&args),
         "N" => red_cases::run_case(&args),
